@@ -46,6 +46,12 @@ def gen_case(rng, tier, i):
         vs = []
         for pt in chosen:
             dims = [next(a for a in axes if a["name"] == n)["coords"][p] for n, p in zip(sub, pt)]
+            if rng.random() < 0.3:
+                # a metric of these axes that also varies along another axis (dx(x, y)): it carries that axis'
+                # dimension at some position, which interpolation / "at the array's position" have to honour
+                for a in axes:
+                    if a["name"] not in sub and rng.random() < 0.7:
+                        dims.append(a["coords"][rng.choice(list(a["coords"]))])
             rng.shuffle(dims)
             nm = "m_" + "".join(sub).lower() + "_" + "".join(p[0] for p in pt)
             mvars.append({"name": nm, "dims": dims, "prime": mg.PRIMES[k % len(mg.PRIMES)]})
@@ -53,6 +59,16 @@ def gen_case(rng, tier, i):
             vs.append(nm)
         registry.append({"key": list(sub), "names": vs})
     pos = {a["name"]: rng.choice(list(a["coords"])) for a in axes}
+    if n_axes >= 2 and rng.random() < 0.12:
+        # single-axis metrics that all live on the SAME multi-axis dimensions, none of them at the array's position:
+        # a product of separately interpolated factors (interpolating the product is something else)
+        D = [a["coords"][rng.choice(list(a["coords"]))] for a in axes]
+        mvars = [{"name": f"m_{a['name'].lower()}_shared", "dims": list(D), "prime": mg.PRIMES[i]} for i, a in enumerate(axes)]
+        registry = [{"key": [a["name"]], "names": [f"m_{a['name'].lower()}_shared"]} for a in axes]
+        a0 = axes[0]
+        others = [p for p, d in a0["coords"].items() if d != D[0]]
+        if others:
+            pos[a0["name"]] = rng.choice(others)
     r = rng.randint(1, n_axes)
     req = rng.sample(names, r)
     spelling = rng.choice(["tuple", "list", "str"]) if r == 1 else rng.choice(["tuple", "list"])
